@@ -2,14 +2,20 @@
    GetArbitersMajorityCount observed on the Go implementation, compared with
    the model by vm_compute.  Signature verification outcomes enter as tables. *)
 From Coq Require Import ZArith NArith Bool List.
-From ELA Require Import model.C25_Confirm.
+From ELA Require Import model.C25_Confirm model.C25_Dispatch.
 Import ListNotations.
 Local Open Scope Z_scope.
 
 Inductive case :=
 | CMajority (id : N) (n : Z) (out : Z)
 | CConfirm (id : N) (arbs : list arbiter) (fallback : Z) (pt : ptable) (vt : vtable)
-           (c : confirm) (sanity_ok context_ok : bool).
+           (c : confirm) (sanity_ok context_ok : bool)
+(* a vote stream delivered to the real ProposalDispatcher through the real
+   handlers: per-step (succeed, finished), then the collected accept / reject
+   votes (as sets of (hash, signer, accept)) and whether a proposal is still
+   being processed *)
+| CDispatch (id : N) (arbs : list arbiter) (fallback : Z) (vt : vtable) (ops : list op)
+            (tr : list (bool * bool)) (acc rej : list vote) (processing : bool).
 
 Definition A (k : Z) (normal : bool) : arbiter := {| a_key := k; a_normal := normal |}.
 Definition V (h k : Z) (a : bool) (s : Z) : vote :=
@@ -17,12 +23,24 @@ Definition V (h k : Z) (a : bool) (s : Z) : vote :=
 Definition C (sponsor h s : Z) (vs : list vote) : confirm :=
   {| c_prop := {| p_sponsor := sponsor; p_hash := h; p_sig := s |}; c_votes := vs |}.
 
+Definition P (sponsor h s : Z) : proposal := {| p_sponsor := sponsor; p_hash := h; p_sig := s |}.
+
+Definition trace_eqb (a b : list (bool * bool)) : bool :=
+  (length a =? length b)%nat &&
+  forallb (fun xy => match xy with ((s, f), (s', f')) => Bool.eqb s s' && Bool.eqb f f' end) (combine a b).
+
 Definition check (c : case) : option N :=
   match c with
   | CMajority id n out => if majority n =? out then None else Some id
   | CConfirm id arbs fb pt vt cf s_ok c_ok =>
       if Bool.eqb (confirm_sanity (pverify_tbl pt) (vverify_tbl vt) cf) s_ok &&
          Bool.eqb (confirm_context arbs fb cf) c_ok
+      then None else Some id
+  | CDispatch id arbs fb vt ops tr acc rej processing =>
+      let st := run (vverify_tbl vt) arbs fb d_empty ops in
+      if trace_eqb (trace (vverify_tbl vt) arbs fb d_empty ops) tr &&
+         same_votes (d_acc st) acc && same_votes (d_rej st) rej &&
+         Bool.eqb (match d_prop st with Some _ => true | None => false end) processing
       then None else Some id
   end.
 
